@@ -320,6 +320,12 @@ def run_check(ctx):
             break
     if spec.get("extra"):
         violations += spec["extra"](ctx)
+    if not ok and ctx.pid in ("C12", "C17"):
+        try:
+            rep = run_model(["const.report"])[0]
+            problems.append("failing constant checks / table entries (model op const.report over the regenerated literals): " + rep[:1500])
+        except Exception as e:
+            problems.append("const.report unavailable: %r" % (e,))
     if not ok and not violations:
         violations.append({"kind": "proof-or-translation-broken", "detail": "; ".join(problems)[:4000]})
     elif not ok:
